@@ -202,8 +202,9 @@ static Den denote_create(const char *desc, bool direct_values = false)
 			if (*r.p != ')') return mal(fam, "no-close-paren");
 			++r.p;
 			d.have_n = true; d.nlo = d.nhi = (long double) d.N + 1;
-			d.comparable = d.N >= 1 && fin(d.a) && fin(d.b) && fin((double) d.b - (double) d.a);
-			d.plain = d.N >= 1 && d.N <= 1000 && d.comparable;
+			d.comparable = d.N >= 1 && fin(d.a) && fin(d.b);   // finite bounds whose difference overflows still denote finite elements
+			d.plain = d.N >= 1 && d.N <= 1000 && d.comparable && fin((double) d.b - (double) d.a);   // refusing bounds whose distance overflows is fine, NaN elements are not
+			if (d.comparable && !fin((double) d.b - (double) d.a)) d.why = "distance-overflow";
 		}
 		else if (k == Den::FAC) {
 			// a = base, b = factor, c = initial value
@@ -256,13 +257,13 @@ static Den denote_create(const char *desc, bool direct_values = false)
 			else if (span < 0 || d.c <= 0 || d.c > span) { d.cls = Den::UNSURE; d.why = "step-outside-span"; return d; }
 			else {
 				long double q = span / d.c;
-				d.have_n = true; d.nlo = floorl(q * (1 - 8 * (long double) DBL_EPSILON)) + 1; d.nhi = floorl(q * (1 + 8 * (long double) DBL_EPSILON)) + 1;
+				d.have_n = true; d.nlo = d.nhi = floorl(q * (1 + 8 * (long double) DBL_EPSILON)) + 1;   // the end point belongs to the range when (b-a)/step is integral within rounding
 				d.comparable = true;
 				d.plain = q <= 1000 && fabsl(d.a) < 1e6 && fabsl(d.b) < 1e6 && span > 1e-6;
 			}
 		}
 		r.ws();
-		if (*r.p) { d.plain = false; d.cls = Den::UNSURE; d.why = "trailing-text"; }
+		if (*r.p) return mal(fam, "trailing-text");   // "malformed descriptions are refused": text behind the closing parenthesis
 		if (spaced2) d.plain = false;
 		(void) defaults;
 		return d;
@@ -662,10 +663,11 @@ static bool do_walk(Src &s, Inst &in, Walk &w)
 		++r.transitions;
 		if (s.verbose) r.note("walk: element %zu -> %s", i, o.text().c_str());
 		if (asan_error()) { s.viol("value|" + s.fam + "|walk," + (i ? "p>0" : "p=0") + "|memory", hist, "reading the current element touches memory outside the object (AddressSanitizer)"); return false; }
+		if (o.k == Obs::NODATA) { s.viol("value|" + s.fam + "|walk," + (i ? "p>0" : "p=0") + "," + den.why + "|success-without-value", hist, fmt("conversion of element %zu reports success but stores nothing", i)); return false; }
 		if (!o.data()) {
 			// nothing (more) to read
 			if (i && s.sp.numeric() == false && s.sp.fam == F_TEXT) { /* a text whose next token does not convert: handled as end of the readable prefix */ }
-			if (i) { s.viol("advance|" + s.fam + "|walk|promised-more", hist, fmt("advance announced a further element but element %zu is not readable: %s", i, o.text().c_str())); return false; }
+			if (i) { s.viol("advance|" + s.fam + "|walk," + den.why + "|promised-more", hist, fmt("advance announced a further element but element %zu is not readable: %s", i, o.text().c_str())); return false; }
 			w.n = 0; break;
 		}
 		w.ref.push_back(o);
@@ -706,7 +708,7 @@ static bool do_walk(Src &s, Inst &in, Walk &w)
 			else ok = got == want;
 			if (!ok) {
 				const char *pc = i == 0 ? "first" : (w.n != BIG && i + 1 == w.n ? "last" : "inner");
-				s.viol("walk|" + s.fam + "|" + pc + "|value", Vec(), fmt("element %zu is %s, the description denotes %s (tolerance %.3Lg)", i, got.text().c_str(), want.text().c_str(), tol));
+				s.viol("walk|" + s.fam + "|" + (den.why != "well-formed" && den.why != "profile" && den.why != "api" && den.why != "default" ? den.why + "," : std::string()) + pc + "|value", Vec(), fmt("element %zu is %s, the description denotes %s (tolerance %.3Lg)", i, got.text().c_str(), want.text().c_str(), tol));
 				return false;
 			}
 		}
@@ -811,6 +813,7 @@ static Spec mk_create(const std::string &text) { Spec s; s.fam = F_CREATE; s.tex
 
 static void fam_lin(Tier t, std::vector<Spec> &v)
 {
+	for (const char *d : { "lin(2:-1e308 1e308)", "linear(4:1e308 -1e308)", "lin(1:-1e308 1e308)", "lin(3:-9e307 9e307)", "lin(2:-8e307 8e307)" }) v.push_back(mk_create(d));
 	std::vector<std::string> kinds = { "lin", "linear" };
 	if (t == Thorough) { kinds.push_back("LIN"); kinds.push_back("Linear"); }
 	for (auto &k : kinds) for (int c = 0; c < NCOUNTS; ++c) {
@@ -971,8 +974,12 @@ static void fam_profile(Tier t, int gi, std::vector<Spec> &v)
 		v.push_back(s);
 	}
 	// odd / malformed profile descriptions: refusal or lenient acceptance, protocol oracle only
-	for (const char *x : { "", " ", "lin", "lin 0", "linear", "line 0 1", "linx 0 1", "linear0 1", "lin 0 x", "bound 0 1", "bound", "boundary 0 1 x", "bounds 0 1 2", "poly", "poly ", "poly x", "polyx 1", "poly 1 x", "poly 1 0 : x",
+	for (const char *x : { "", " ", "lin", "lin 0", "linear", "line 0 1", "linx 0 1", "linear0 1", "lin 0 x", "bound 0 1", "bound", "boundary 0 1 x", "bounds 0 1 2", "poly", "poly ", "poly x", "polyx 1",
 	                       "poly 1 0 :", "poly 1 0 : 1 2 3 4", "file /nonexistent/C19", "foo 1 2", "1 2 3", "  lin 0 1", "lin  0  1", "lin : 0 1", "lin::0 1", "poly  :  1 0" }) v.push_back(mk_profile(g, x));
+	// text that is neither number, ':' nor white space inside / behind the value lists
+	for (const char *x : { "poly 1 x", "poly 1 0 : x", "poly 1 0 : 1 x", "poly 1 0 x : 1", "lin 0 1 x", "linear 0 1 2", "bound 0 1 2 x", "boundary 0 1 2 3" }) {
+		Spec s = mk_profile(g, x); s.den = mal(x[0] == 'p' ? "poly" : (x[0] == 'l' ? "linear" : "boundary"), "trailing-text"); v.push_back(s);
+	}
 	if (gi == 0) {
 		Spec s = mk_profile(g, "lin 0 1"); s.null_text = true; s.den = mal("profile", "null"); v.push_back(s);
 		Spec e = mk_profile(g, "lin 0 1"); e.null_arr = true; e.den = mal("profile", "no-grid"); v.push_back(e);
@@ -1022,8 +1029,15 @@ static void fam_iterarg(Tier, std::vector<Spec> &v)
 		s.den = denote_create((std::string("fac(") + N + ":" + A + ":" + B + ":" + Cc + ")").c_str()); s.den.why = "iterator-args"; s.den.plain = false;
 		v.push_back(s);
 	}
+	// factor with omitted trailing arguments: same defaults as the text form ("default factor is replaced by base")
+	for (const char *x : { "3", "3 2", "3 0.5", "3 2 3", "2 3", "3 -2" }) {
+		Spec s; s.fam = F_ITERARG; s.argkind = 1; s.text = x;
+		std::string t = x; for (char &c : t) if (c == ' ') c = ':';
+		s.den = denote_create(("fac(" + t + ")").c_str()); s.den.why = "iterator-args,defaults"; s.den.plain = false;
+		v.push_back(s);
+	}
 	// partial / odd argument lists: no independent denotation, protocol + differential oracles only
-	for (int k = 0; k < 3; ++k) for (const char *x : { "3", "3 0", "3 2", "3 2 3", "0 1", "0", "x", "-1 0 1", "0.5 0 1", "3 0 1 7", "3 x", "3 0 x", "1e10 0 1", "nan 0 1" }) {
+	for (int k = 0; k < 3; ++k) for (const char *x : { "3 0", "0 1", "0", "x", "-1 0 1", "0.5 0 1", "3 0 1 7", "3 x", "3 0 x", "1e10 0 1", "nan 0 1" }) {
 		Spec s; s.fam = F_ITERARG; s.argkind = k; s.text = x;
 		s.den.fam = k == 0 ? "linear" : (k == 1 ? "factor" : "range"); s.den.why = "iterator-args,partial";
 		v.push_back(s);
@@ -1066,6 +1080,24 @@ static void fam_text(Tier, std::vector<Spec> &v)
 		Spec s; s.fam = F_TEXT; s.rtype = 'd'; s.probe = true;
 		for (size_t i = 0; i < q.size(); ++i) { s.text += (i ? " " : "") + q[i]; s.den.list.push_back(Obs::dbl(strtod(q[i].c_str(), 0))); }
 		Den &d = s.den; d.cls = Den::WELL; d.kind = Den::LIST; d.fam = "text"; d.why = "integers"; d.have_n = true; d.nlo = d.nhi = q.size(); d.plain = true;
+		v.push_back(s);
+	}
+	// keys separated by the default separator characters
+	sq.clear(); seqs({ "alpha", "b" }, 3, sq, false);
+	for (auto &q : sq) for (const char *j : { ",", ", ", ";", ":", "/" }) {
+		if (q.size() < 2) continue;
+		Spec s; s.fam = F_TEXT; s.rtype = 'k';
+		for (size_t i = 0; i < q.size(); ++i) { s.text += (i ? j : "") + q[i]; s.den.list.push_back(Obs::str(q[i])); }
+		Den &d = s.den; d.cls = Den::WELL; d.kind = Den::LIST; d.fam = "text"; d.why = "separated-words"; d.have_n = true; d.nlo = d.nhi = q.size(); d.plain = true;
+		v.push_back(s);
+	}
+	// trailing / only white space is not an element
+	sq.clear(); seqs({ "3", "-2.5" }, 2, sq, true);
+	for (auto &q : sq) for (const char *tail : { " ", "  ", "\t", " \n" }) {
+		Spec s; s.fam = F_TEXT; s.rtype = 'd';
+		for (size_t i = 0; i < q.size(); ++i) { s.text += (i ? " " : "") + q[i]; s.den.list.push_back(Obs::dbl(strtod(q[i].c_str(), 0))); }
+		s.text += tail;
+		Den &d = s.den; d.cls = Den::WELL; d.kind = Den::LIST; d.fam = "text"; d.why = "trailing-space"; d.have_n = true; d.nlo = d.nhi = q.size(); d.plain = true;
 		v.push_back(s);
 	}
 	for (const char *x : { "a b", "abc", "1 2 3" }) {
